@@ -2,6 +2,7 @@ package configmigrate
 
 import (
 	"fmt"
+	"strconv"
 )
 
 type (
@@ -33,10 +34,40 @@ func fieldVal[T any](obj yobj, key string) (v T, ok bool, err error) {
 
 	v, ok = val.(T)
 	if !ok {
-		return v, false, fmt.Errorf("unexpected type of %q: %T", key, val)
+		v, ok = wholeFloatAs[T](val)
+		if !ok {
+			return v, false, fmt.Errorf("unexpected type of %q: %T", key, val)
+		}
 	}
 
 	return v, true, nil
+}
+
+// wholeFloatAs converts val into an int when T is int and val is a float64
+// which the YAML encoder writes as an integer: 2.0 is written as 2, so a
+// configuration saved after some of the migrations and read again already holds
+// an int there.  Accepting such a value right away makes the result of a
+// migration the same whether it is done in one run or in several.
+func wholeFloatAs[T any](val any) (v T, ok bool) {
+	f, ok := val.(float64)
+	if !ok {
+		return v, false
+	}
+
+	if _, ok = any(v).(int); !ok {
+		return v, false
+	}
+
+	// This is how yaml.v3 formats a float64; the result is read back as an int
+	// if and only if it parses as one.
+	n, err := strconv.ParseInt(strconv.FormatFloat(f, 'g', -1, 64), 10, 0)
+	if err != nil {
+		return v, false
+	}
+
+	v, ok = any(int(n)).(T)
+
+	return v, ok
 }
 
 // moveVal copies the value for srcKey from src into dst for dstKey and deletes
